@@ -1,3 +1,141 @@
+/-
+Helper lemmas for the handshake part of C07: the unbuffered reader only ever exposes
+the flattened byte stream.
+-/
 import SshuttleModel.Code.Handshake
+
 namespace Sshuttle.Handshake
+
+theorem norm_flatten (r : Reader) : (norm r).flatten = r.flatten := by
+  induction r with
+  | nil => rfl
+  | cons c cs ih =>
+    unfold norm; split
+    next h => simp [ih, List.isEmpty_iff.mp h]
+    · rfl
+
+theorem norm_head_ne (r : Reader) : ∀ c cs, norm r = c :: cs → c ≠ [] := by
+  induction r with
+  | nil => intro c cs h; simp [norm] at h
+  | cons d ds ih =>
+    intro c cs h
+    unfold norm at h; split at h
+    · exact ih c cs h
+    next hne =>
+      injection h with h1 _
+      subst h1
+      intro he; subst he; simp at hne
+
+/-- One `read(n)`: the bytes returned followed by what remains is the stream; at most `n`
+bytes; empty only at end of stream (for `n ≥ 1`). -/
+theorem read_spec (r : Reader) (n : Nat) :
+    (read r n).1 ++ (read r n).2.flatten = r.flatten ∧ (read r n).1.length ≤ n ∧
+    (1 ≤ n → ((read r n).1 = [] ↔ r.flatten = [])) ∧
+    (read r n).1 = (r.flatten.take (read r n).1.length) := by
+  unfold read
+  have hf := norm_flatten r
+  cases hn : norm r with
+  | nil => rw [hn] at hf; simp [← hf]
+  | cons c cs =>
+    have hc := norm_head_ne r c cs hn
+    rw [hn] at hf
+    simp only [List.flatten_cons] at hf
+    simp only
+    refine ⟨?_, ?_, ?_, ?_⟩
+    · rw [← hf]
+      split
+      next h =>
+        have e := List.take_append_drop n c
+        rw [List.isEmpty_iff.mp h, List.append_nil] at e
+        rw [e]
+      · simp [← List.append_assoc, List.take_append_drop]
+    · simp [List.length_take]; omega
+    · intro h1
+      rw [← hf]
+      constructor
+      · intro h
+        rcases List.take_eq_nil_iff.mp h with h0 | h0
+        · omega
+        · exact absurd h0 hc
+      · intro h
+        have := List.append_eq_nil_iff.mp h
+        exact absurd this.1 hc
+    · rw [← hf, List.take_append_of_le_length (by simp [List.length_take]; omega)]
+      simp [List.take_take]
+
+/-- Bytes after the first NUL of a stream (`none` if there is no NUL). -/
+def afterNul : Bytes → Option Bytes
+  | [] => none
+  | b :: rest => if b = 0 then some rest else afterNul rest
+
+theorem skipToNul_spec (fuel : Nat) (r : Reader) (h : r.flatten.length < fuel) :
+    (skipToNul fuel r).map List.flatten = afterNul r.flatten := by
+  induction fuel generalizing r with
+  | zero => omega
+  | succ fuel ih =>
+    unfold skipToNul
+    obtain ⟨h1, h2, h3, h4⟩ := read_spec r 1
+    cases hv : (read r 1).1 with
+    | nil =>
+      have : r.flatten = [] := (h3 (Nat.le_refl 1)).mp hv
+      have e : read r 1 = ([], (read r 1).2) := by rw [← hv]
+      rw [e]; simp [this, afterNul]
+    | cons b t =>
+      have ht : t = [] := by
+        rw [hv] at h2; simp at h2
+        exact h2
+      subst ht
+      have e : read r 1 = ([b], (read r 1).2) := by rw [← hv]
+      rw [hv] at h1
+      rw [e]
+      simp only
+      rw [← h1]
+      simp only [List.cons_append, List.nil_append, afterNul]
+      split
+      · simp
+      · apply ih
+        rw [← h1] at h; simp only [List.cons_append, List.nil_append, List.length_cons] at h; omega
+
+theorem readExactly_spec (fuel : Nat) (r : Reader) (n : Nat) (acc : Bytes)
+    (hf : n < fuel + acc.length) (ha : acc.length ≤ n) :
+    let res := readExactly fuel r n acc
+    res.1 ++ res.2.flatten = acc ++ r.flatten ∧
+    res.1 = (acc ++ r.flatten).take n := by
+  induction fuel generalizing r acc with
+  | zero => simp only [Nat.zero_add] at hf; omega
+  | succ fuel ih =>
+    unfold readExactly
+    by_cases hge : acc.length ≥ n
+    · have : acc.length = n := by omega
+      simp only [hge, ↓reduceIte]
+      refine ⟨trivial, ?_⟩
+      rw [List.take_append_of_le_length (by omega)]
+      rw [← this]; simp
+    · simp only [hge, ↓reduceIte]
+      obtain ⟨h1, h2, h3, h4⟩ := read_spec r (n - acc.length)
+      cases hv : (read r (n - acc.length)).1 with
+      | nil =>
+        have hr : r.flatten = [] := (h3 (by omega)).mp hv
+        have e : read r (n - acc.length) = ([], (read r (n - acc.length)).2) := by rw [← hv]
+        rw [e]
+        simp only
+        rw [hv] at h1
+        simp only [List.nil_append] at h1
+        refine ⟨by rw [h1], ?_⟩
+        rw [hr, List.append_nil, List.take_of_length_le (by omega)]
+      | cons b t =>
+        have e : read r (n - acc.length) = (b :: t, (read r (n - acc.length)).2) := by rw [← hv]
+        rw [e]
+        simp only
+        rw [hv] at h1 h2
+        have hlen : (acc ++ b :: t).length ≤ n := by
+          simp only [List.length_append]; omega
+        have := ih (read r (n - acc.length)).2 (acc ++ b :: t)
+          (by simp only [List.length_append, List.length_cons] at hlen ⊢; omega) hlen
+        simp only at this
+        obtain ⟨g1, g2⟩ := this
+        refine ⟨?_, ?_⟩
+        · rw [g1, List.append_assoc, h1]
+        · rw [g2, List.append_assoc, h1]
+
 end Sshuttle.Handshake
